@@ -26,7 +26,7 @@ MANIFEST_ENTRY = {
 }
 
 
-def tasks(tier, seed):
+def _tasks_core(tier, seed):
     return [
         func("bt.backtest.Backtest.weights", variant="mv"), func("bt.backtest.Backtest.weights", variant="fi"),
         func("bt.backtest.Backtest.security_weights", variant="mv"), func("bt.backtest.Backtest.security_weights", variant="fi"),
@@ -46,3 +46,15 @@ def replay(o):
     if o.get("replay_inline"):
         return o["replay_inline"]
     return None
+
+
+# functions under contract elsewhere whose obligations carry this property's tag as well (found by tools/tagaudit.py): run here too, so that a change
+# which breaks one of them is reported by this check and not only by a neighbour
+def tasks(tier, seed):
+    return _tasks_core(tier, seed) + [
+        func("bt.core.SecurityBase.update"),
+        func("bt.core.FixedIncomeSecurity.update"),
+        func("bt.core.CouponPayingSecurity.update"),
+        func("bt.core.SecurityBase.outlay"),
+        func("bt.core.SecurityBase.transact"),
+    ]
